@@ -27,6 +27,9 @@ CHECKS = {
  "C18": dict(design="§6 C18", technique="deterministic simulation: session/operation histories with restarts (only the file survives) vs list model",
    text="Seeded sequences of sessions over one real history file (initial content missing/empty/with or without trailing newline/longer than the limit); each session parses --history/--history-size with the real option parser, performs previous/next/edit steps and at most one submit; every returned string and the file bytes after every session are compared with a list-of-strings model.",
    note="Object level (whole interactive sessions are added by the sys scenarios). No crash-point or disk-fault injection: the property quantifies over histories only."),
+ "C08": dict(design="§6 C08", technique="deterministic simulation of whole interactive sessions: seeded action histories x reader progress x scan/cancel schedules vs fresh sequential filter at settle points",
+   text="Whole simulated interactive sessions (real Run coordinator, reader, matcher, Terminal, LightRenderer; simulated tty, stdin, reload child processes, clock) under seeded histories of typing, deletion, clear/change-query, toggle-sort, exclude, reload and reload-sync arriving at seeded instants relative to loading, EOF, scans and cancellations, with CPU stalls; at every settle point the match list (all entries, white-box) must equal a fresh sequential filter of (loaded input minus issued exclusions, current query, current sort flag), counts must agree, and the reload command issued last must be the one loaded. Plus Matcher.Loop alone under adversarial request sequences: the last publish answers the last request.",
+   note="Settle = observable state digest stable for 3 simulated seconds with no runnable goroutine but the 100 ms spinner. Pure matcher trusted (sequential oracle uses it). change-nth, toggle-search/search() overrides are not in the generated vocabulary yet."),
  "C13": dict(design="§6 C13", technique="deterministic simulation: loaders/coordinator/matcher interleavings vs sequential filter of frozen snapshots",
    text="1-3 loader tasks push through the real ChunkList while a coordinator snapshots (with/without --tail) and issues Reset requests to the real Matcher.Loop with 1..32 partitions under seeded schedules incl. CPU stalls; every published merger must equal the sequential filter of the frozen input of a request (in request order); frozen copies must stay equal to live snapshots; cache audit; scratch-slab exclusivity.",
    note="Data races finer than synchronisation granularity are outside the deterministic part."),
